@@ -770,7 +770,8 @@ def parse_ticket(secret, ticket, ip, hashalg='md5'):
 
     # Avoid timing attacks (see
     # http://seb.dbzteam.org/crypto/python-oauth-timing-hmac.pdf)
-    if strings_differ(expected, digest):
+    # (compared as bytes: compare_digest refuses non-ASCII text)
+    if strings_differ(bytes_(expected, 'utf-8'), bytes_(digest, 'utf-8')):
         raise BadTicket(
             'Digest signature is not correct', expected=(expected, digest)
         )
